@@ -58,7 +58,7 @@ class MultiTargetMCSU2(Gate):
         self.unitaries = unitaries
         self.controls = QuantumRegister(num_controls)
         self.target = QuantumRegister(num_target)
-        self.num_controls = num_controls + 1
+        self.num_controls = num_controls + num_target
         self.ctrl_state = ctrl_state
 
         super().__init__("ldmcsu", self.num_controls, [], "ldmcsu")
@@ -99,7 +99,9 @@ class MultiTargetMCSU2(Gate):
                     self.definition.h(self.target[idx])
 
         else:
-            self.definition = Ldmcsu(self.unitaries, self.num_controls)
+            self.definition = Ldmcsu(
+                self.unitaries, len(self.controls), ctrl_state=self.ctrl_state
+            ).definition
 
     def clinear_depth_mcv(self, general_su2_optimization=False):
         """
